@@ -269,3 +269,21 @@ Qed.
 
 Lemma layout_unaligned_old : fst (fst (layout false 8 8)) mod 8 <> 0 /\ snd (layout false 8 8) mod 8 <> 0.
 Proof. vm_compute. split; discriminate. Qed.
+
+(* ------------------------------------------------------------------ == is coarser than identity *)
+Lemma cmp_coarser : cmp_payload CEq 4 6 = true /\ 4 <> 6 /\ cmp_payload CLt 4 6 = false /\ cmp_payload CGt 4 6 = false.
+Proof. repeat split; try reflexivity; discriminate. Qed.
+
+(* wrapper assignment transfers the source's stored value itself (whatever the payload's
+   operator== says about the old and the new value): afterwards value() is Leibniz-equal to it *)
+Lemma assign_copy_exact z h i j t x y :
+  fst (spec_run z aempty h) i = Some (t, x) ->
+  fst (spec_run z aempty h) j = Some (t, y) ->
+  r_outs (run (fixed_cfg z) (h ++ [AssignCopy i j; HasValue i; Value i])) =
+  r_outs (run (fixed_cfg z) h) ++ [Some OUnit; Some (OBool (is_some y)); Some (OVal y)].
+Proof.
+  intros Hi Hj.
+  eapply last_op_gives with (a' := aupd (fst (spec_run z aempty h)) i (Some (t, y))).
+  - cbn [spec_step]. rewrite Hi, Hj. rewrite Bool.eqb_reflx. reflexivity.
+  - cbn [gives]. unfold src_state. rewrite Hj. reflexivity.
+Qed.
